@@ -1,12 +1,13 @@
 """C07 - the launched channel set survives the path intact; channel order is irrelevant.
 
-B1  TLC explores MC_ChannelSet: every launch list (every order) of <= MaxLaunch of 15 candidate channels sitting on
+B1  TLC explores MC_ChannelSet: every launch list (every order) of <= MaxLaunch of 16 candidate channels sitting on
     band edges, one MHz beyond them, in the C/L gap, touching / overlapping by one MHz, baud = slot / one MHz wider,
     on six paths (single-band, multi-band, mixed, no amplifier, wide single band before / after a multi-band amplifier), with Survives, FilterKeepsExactlyCommon,
     InFrequencyOrder, OwnAttributes, OrderIrrelevant, RejectOverlap, RejectBaudWiderThanSlot, AcceptValid.
 B2  every walk TLC emits is replayed on real objects: create_arbitrary_spectral_information and
-    carriers_to_spectral_information (SpectrumError exactly when the model rejects, else the model's sorted list with
-    every attribute attached), filter_si on a path of real amplifiers of the shipped multi-band library, then every
+    carriers_to_spectral_information and the loader of user spectrum documents, one partition per carrier
+    (rejected exactly when the model rejects - SpectrumError, or the loader's own ValueError for overlapping
+    partitions - else the model's sorted list with every attribute attached), filter_si on a path of real amplifiers of the shipped multi-band library, then every
     real element (Edfa, Fiber, Multiband_amplifier) called in turn, and explicit demux per band + mux.
 B3  real propagate() runs on the shipped networks are judged by Trace_Propagation: the request-level clauses
     (RejectOverlap, RejectBaudWiderThanSlot, AcceptValid, Survives = a valid request with a channel in the common
@@ -15,6 +16,7 @@ B3  real propagate() runs on the shipped networks are judged by Trace_Propagatio
     (same request, carriers in another order: identical receiver figures channel by channel within 1 micro-dB).
 """
 import copy
+from concurrent.futures import ThreadPoolExecutor
 
 import numpy as np
 
@@ -49,21 +51,22 @@ def attrs(label_id):
                 roll_off=0.1 + label_id / 1000, delta_pdb=label_id / 10)
 
 
-def label_of(si, k):
+def label_of(si, k, tx_power=None):
     """projection of the attributes carried by channel k back to the model's label (-1 when they do not belong
-    to one and the same launched channel)"""
+    to one and the same launched channel); tx_power: the power every carrier was declared with (spectrum documents
+    give it in dBm), default the per-label power of attrs()"""
     lab = str(si.label[k])
     if not (lab.startswith('L') and lab[1:].isdigit()):
         return -1
     a = attrs(int(lab[1:]))
-    same = (si.tx_osnr[k] == a['tx_osnr'] and si.tx_power[k] == a['tx_power'] and si.roll_off[k] == a['roll_off']
-            and si.delta_pdb_per_channel[k] == a['delta_pdb'])
+    same = (si.tx_osnr[k] == a['tx_osnr'] and si.tx_power[k] == (a['tx_power'] if tx_power is None else tx_power)
+            and si.roll_off[k] == a['roll_off'] and si.delta_pdb_per_channel[k] == a['delta_pdb'])
     return int(lab[1:]) if same else -1
 
 
-def project(si):
+def project(si, tx_power=None):
     return [dict(f=pu.mhz(si.frequency[k]), w=int(round(si.slot_width[k] / 1e6)), b=int(round(si.baud_rate[k] / 1e6)),
-                 label=label_of(si, k)) for k in range(si.number_of_channels)]
+                 label=label_of(si, k, tx_power)) for k in range(si.number_of_channels)]
 
 
 def build_arbitrary(inp):
@@ -85,6 +88,20 @@ def build_carriers(inp):
                                           roll_off=a['roll_off'], tx_osnr=a['tx_osnr'], tx_power=a['tx_power'],
                                           label=a['label'])
     return carriers_to_spectral_information(spectrum, power=1e-6)
+
+
+def build_from_document(inp):
+    """the launch list as a user spectrum document: one partition per carrier, in the caller's order, through the
+    loader of spectrum files (the function behind load_initial_spectrum) and carriers_to_spectral_information"""
+    from gnpy.core.info import carriers_to_spectral_information
+    from gnpy.tools.json_io import _spectrum_from_json
+    parts = []
+    for c in inp:
+        a = attrs(c['label'])
+        parts.append({'f_min': pu.hz(c['f']), 'f_max': pu.hz(c['f']), 'baud_rate': c['b'] * 1e6, 'slot_width': c['w'] * 1e6,
+                      'roll_off': a['roll_off'], 'tx_osnr': a['tx_osnr'], 'delta_pdb': a['delta_pdb'], 'label': a['label'],
+                      'tx_power_dbm': 0})
+    return carriers_to_spectral_information(_spectrum_from_json(parts), power=1e-3)
 
 
 class Bench:
@@ -130,14 +147,22 @@ def replay_walk(bench, js, chk, through_elements):
     shape = f'n={len(inp)}'
     ok = True
     sis = {}
+    distinct_f = len({c['f'] for c in inp}) == len(inp)
     for how, build in (('create_arbitrary_spectral_information', build_arbitrary),
-                       ('carriers_to_spectral_information', build_carriers)):
+                       ('carriers_to_spectral_information', build_carriers),
+                       ('spectrum-document', build_from_document)):
+        if how == 'carriers_to_spectral_information' and not distinct_f:
+            continue                # a dict keyed by frequency cannot even express two carriers at one frequency
         try:
             si = build(inp)
-            got = ('launched', project(si))
+            got = ('launched', project(si, 1e-3 if how == 'spectrum-document' else None))
             sis[how] = si
         except SpectrumError:
             got = ('SpectrumError', [])
+        except ValueError as e:
+            # the document loader has its own overlap test between partitions and rejects with a ValueError
+            rejected = how == 'spectrum-document' and 'Not a valid initial spectrum definition' in str(e)
+            got = ('SpectrumError' if rejected else 'ValueError', [])
         except Exception as e:                                        # noqa
             got = (f'{type(e).__name__}', [])
         want = ('SpectrumError', []) if status == 'SpectrumError' else ('launched', js['launched'])
@@ -196,12 +221,15 @@ def replay_walk(bench, js, chk, through_elements):
 def run(chk):
     maxlaunch, through = BOUNDS[chk.tier]
     # B1 and the emission for B2 in one exhaustive run: all clauses as invariants, every finished walk printed
-    r2 = tlc.run('MC_ChannelSet', cfg_text=cfg(maxlaunch, emit=True), timeout=3000, tag='c07-mc')
+    base = '\n'.join(ln for ln in cfg(3, emit=False).splitlines() if not ln.startswith('INVARIANT'))
+    witnesses = ('WitnessMultiSplit', 'WitnessDropped')
+    with ThreadPoolExecutor(max_workers=2) as pool:                   # the short witness runs overlap the main run
+        ws = {w: pool.submit(tlc.run, 'MC_ChannelSet', cfg_text=base + f'\nINVARIANT {w}\n', timeout=600, workers=1,
+                             tag='c07-witness') for w in witnesses}
+        r2 = tlc.run('MC_ChannelSet', cfg_text=cfg(maxlaunch, emit=True), timeout=3000, tag='c07-mc')
     chk.add_mc(f'MC_ChannelSet MaxLaunch={maxlaunch} (all clauses + emission)', r2)
-    for w in ('WitnessMultiSplit', 'WitnessDropped'):
-        base = '\n'.join(ln for ln in cfg(3, emit=False).splitlines() if not ln.startswith('INVARIANT'))
-        rw = tlc.run('MC_ChannelSet', cfg_text=base + f'\nINVARIANT {w}\n', timeout=600, tag='c07-witness')
-        if rw.violated != w:
+    for w, fut in ws.items():
+        if fut.result().violated != w:
             raise Machinery(f'vacuous model: {w} is not reachable')
     if not any(js['status'] == 'SpectrumError' for js in r2.emitted) or not any(js['status'] == 'NoChannel' for js in r2.emitted):
         raise Machinery('vacuous model: no rejected / no empty launch among the emitted walks')
